@@ -56,6 +56,12 @@ type ConnlistAnalyzer struct {
 // ConnlistFromResourceInfos returns the allowed-connections list from input slice of resource.Info objects,
 // and the list of all workloads from the parsed resources
 func (ca *ConnlistAnalyzer) ConnlistFromResourceInfos(info []*resource.Info) ([]Peer2PeerConnection, []Peer, error) {
+	// the errors of an earlier analysis made with this analyzer do not belong to this one (they would stop it)
+	ca.errors = nil
+	return ca.connlistFromResourceInfos(info)
+}
+
+func (ca *ConnlistAnalyzer) connlistFromResourceInfos(info []*resource.Info) ([]Peer2PeerConnection, []Peer, error) {
 	// convert resource.Info objects to k8s resources, filter irrelevant resources
 	objects, fpErrs := parser.ResourceInfoListToK8sObjectsList(info, ca.logger, ca.muteErrsAndWarns)
 	ca.copyFpErrs(fpErrs)
@@ -77,6 +83,8 @@ func (ca *ConnlistAnalyzer) copyFpErrs(fpErrs []parser.FileProcessingError) {
 // ConnlistFromDirPath returns the allowed connections list from dir path containing k8s resources,
 // and list of all workloads from the parsed resources
 func (ca *ConnlistAnalyzer) ConnlistFromDirPath(dirPath string) ([]Peer2PeerConnection, []Peer, error) {
+	// the errors of an earlier analysis made with this analyzer do not belong to this one (they would stop it)
+	ca.errors = nil
 	rList, errs := fsscanner.GetResourceInfosFromDirPath([]string{dirPath}, true, ca.stopOnError)
 	// instead of parsing the builder's string error to decide on error type (warning/error/fatal-err)
 	// return as fatal error if rList is empty or if stopOnError is on
@@ -95,7 +103,7 @@ func (ca *ConnlistAnalyzer) ConnlistFromDirPath(dirPath string) ([]Peer2PeerConn
 			ca.errors = append(ca.errors, parser.FailedReadingFile(dirPath, err)) // add the error from builder to accumulated errors
 		}
 	}
-	return ca.ConnlistFromResourceInfos(rList)
+	return ca.connlistFromResourceInfos(rList)
 }
 
 // ValidFormats array of possible values of output format
